@@ -974,6 +974,29 @@ Inductive NameText (o : list str) (n : list str) : str -> Prop :=
 | nt_abs : NameText o n (print_abs n)
 | nt_rel rel : rel <> [] -> n = rel ++ o -> NameText o n (print_rel rel).
 
+(* TTL texts: decimal seconds, or BIND-style number-unit groups optionally followed by seconds *)
+Definition unit_secs (c : N) : option N :=
+  if (c =? 115) || (c =? 83) then Some 1 else if (c =? 109) || (c =? 77) then Some 60
+  else if (c =? 104) || (c =? 72) then Some 3600 else if (c =? 100) || (c =? 68) then Some 86400
+  else if (c =? 119) || (c =? 87) then Some 604800 else None.
+Fixpoint units_text (ps : list (N * N)) : str :=
+  match ps with [] => [] | (n, u) :: r => dec n ++ u :: units_text r end.
+Fixpoint units_value (ps : list (N * N)) : option N :=
+  match ps with
+  | [] => Some 0
+  | (n, u) :: r => match unit_secs u, units_value r with
+                   | Some m, Some v => Some (n * m + v)
+                   | _, _ => None
+                   end
+  end.
+Inductive TtlText (t : N) : str -> Prop :=
+| tt_dec : TtlText t (dec t)
+| tt_units ps : ps <> [] -> units_value ps = Some t -> TtlText t (units_text ps)
+| tt_units_secs ps v n : ps <> [] -> units_value ps = Some v -> t = v + n -> TtlText t (units_text ps ++ dec n).
+
+(* class and type mnemonics in any letter case *)
+Definition Mnem (upper : str) (s : str) : Prop := upper_str s = upper.
+
 Definition class_text (k : N) : str :=
   if k =? 1 then s2l "IN" else if k =? 3 then s2l "CH" else s2l "HS".
 Definition type_text (d : sdata) : str :=
@@ -990,8 +1013,9 @@ Inductive DataWords (o : list str) : sdata -> list str -> Prop :=
 | dw_ptr n t : NameText o n t -> DataWords o (SPTR n) [t]
 | dw_mx p n t : NameText o n t -> DataWords o (SMX p n) [dec p; t]
 | dw_txt ss : DataWords o (STXT ss) ss
-| dw_soa m r tm tr a b c e f : NameText o m tm -> NameText o r tr ->
-    DataWords o (SSOA m r a b c e f) [tm; tr; dec a; dec b; dec c; dec e; dec f].
+| dw_soa m r tm tr a b c e f tb tc te tf : NameText o m tm -> NameText o r tr ->
+    TtlText b tb -> TtlText c tc -> TtlText e te -> TtlText f tf ->
+    DataWords o (SSOA m r a b c e f) [tm; tr; dec a; tb; tc; te; tf].
 
 (* tokens of the RDATA part: words, possibly gathered in parenthesised groups *)
 Fixpoint flat_tokens (ts : list token) : option (list str) :=
@@ -1021,10 +1045,10 @@ Definition ttl_omissible (ps : pstate_) (t : N) : Prop :=
 
 (* the optional TTL and class, in either order *)
 Inductive TtlClassToks (ps : pstate_) (t k : N) : list token -> bool -> Prop :=
-| tc_both1 : TtlClassToks ps t k [TChar (dec t); TChar (class_text k)] true
-| tc_both2 : TtlClassToks ps t k [TChar (class_text k); TChar (dec t)] true
-| tc_ttl : p_class ps = k -> TtlClassToks ps t k [TChar (dec t)] true
-| tc_class : ttl_omissible ps t -> TtlClassToks ps t k [TChar (class_text k)] false
+| tc_both1 tt ct : TtlText t tt -> Mnem (class_text k) ct -> TtlClassToks ps t k [TChar tt; TChar ct] true
+| tc_both2 tt ct : TtlText t tt -> Mnem (class_text k) ct -> TtlClassToks ps t k [TChar ct; TChar tt] true
+| tc_ttl tt : TtlText t tt -> p_class ps = k -> TtlClassToks ps t k [TChar tt] true
+| tc_class ct : Mnem (class_text k) ct -> ttl_omissible ps t -> TtlClassToks ps t k [TChar ct] false
 | tc_none : p_class ps = k -> ttl_omissible ps t -> TtlClassToks ps t k [] false.
 
 Inductive LineToks : pstate_ -> list token -> option srec -> pstate_ -> Prop :=
@@ -1033,15 +1057,16 @@ Inductive LineToks : pstate_ -> list token -> option srec -> pstate_ -> Prop :=
 | lt_origin ps n : name_ok n = true ->
     LineToks ps [TOrigin; TChar (print_abs n); TEOL] None
              (MkPs n (p_prev ps) (p_dttl ps) (p_last ps) (p_class ps))
-| lt_ttl ps t : t <= u32max ->
-    LineToks ps [TTtl; TChar (dec t); TEOL] None
+| lt_ttl ps t tt : t <= u32max -> TtlText t tt ->
+    LineToks ps [TTtl; TChar tt; TEOL] None
              (MkPs (p_origin ps) (p_prev ps) (Some t) (p_last ps) (p_class ps))
-| lt_rec ps r own tc explicit rd ws :
+| lt_rec ps r own tc explicit ty rd ws :
     OwnerToks ps (s_owner r) own ->
     TtlClassToks ps (s_ttl r) (s_class r) tc explicit ->
+    Mnem (type_text (s_data r)) ty ->
     DataWords (p_origin ps) (s_data r) ws ->
     flat_tokens rd = Some ws ->
-    LineToks ps (own ++ tc ++ [TChar (type_text (s_data r))] ++ rd ++ [TEOL]) (Some r)
+    LineToks ps (own ++ tc ++ [TChar ty] ++ rd ++ [TEOL]) (Some r)
              (MkPs (p_origin ps) (Some (s_owner r)) (p_dttl ps)
                    (if explicit then Some (s_ttl r) else p_last ps) (s_class r)).
 
@@ -1067,6 +1092,14 @@ Fixpoint distinct_from (earlier : list rr) (rs : list rr) : bool :=
   | r :: rest => forallb (fun x => negb (collides r x)) earlier && distinct_from (earlier ++ [r]) rest
   end.
 Definition distinct (rs : list rr) : bool := distinct_from [] rs.
+
+(* the last line of a file may lack its line end *)
+Definition render_noeol (l : line) : str :=
+  l_lead l ++ render_items (l_items l) ++ render_comment (l_comment l).
+Definition line_tokens_noeol (l : line) : list token :=
+  (match l_lead l with [] => [] | _ => [TBlank] end) ++ map (fun ig => item_tok (fst ig)) (l_items l).
+Definition line_noeol_ok (l : line) : bool :=
+  forallb blank (l_lead l) && items_ok (l_items l) && comment_ok (l_comment l).
 
 (* a line short enough for the lexer's iteration cap never to be reached inside it *)
 Definition short_line (l : line) : bool := (N.of_nat (length (render_line l)) <=? 2045).
